@@ -1,9 +1,13 @@
 """C09 Pending candidate events equal what a fresh start from the current state creates."""
+import functools
 from .runprops import make
 from ..monitors.pending import Pending
+from ..monitors.cells import Cells
 
-make(globals(), "C09", [Pending],
+make(globals(), "C09", [Pending, functools.partial(Cells, props=("C10",), report_as="C09")],
      rule=("seeded whole runs; at every leg the multiset of in-state identifiers of the live scheduler entries of "
            "each interaction-type tagger is compared with the tagger's from-scratch output, count-only for timer "
-           "taggers; non-trivial = >= 200 tagger checks"),
+           "taggers; activation is taken from a shadow model of the activate/deactivate lists and the expected "
+           "output from the class-level generator, and for cell-based taggers the fresh start is recomputed from "
+           "positions (every unit in a nearby cell targeted exactly once, far units exactly once); non-trivial = >= 200 tagger checks"),
      nontrivial=lambda r: r.probes.get("c09_tagger_checks", 0) >= 200)
